@@ -43,6 +43,16 @@ PRJS = {
     'p3': gc.Projection(500000, 0, 1.0, 3, 3),
     'p4': gc.Projection(400000, 5000000, 0.9998, 4, 111),
 }
+import copy as _copy
+# projections configured by copying a shipped one and adjusting attributes afterwards (a Projection is a plain attribute
+# holder: anything derived from its attributes at construction time would be stale here)
+_p5 = _copy.copy(gc.utm)
+_p5.cmscale = 0.9999
+_p5.falsenorth = 5000000
+PRJS['p5'] = _p5
+_p6 = gc.Projection(0, 0, 1, 1, 0)
+_p6.falseeast, _p6.falsenorth, _p6.cmscale, _p6.zonewidth, _p6.initialcm = 250000, 10000000, 1.0, 6, -177
+PRJS['p6'] = _p6
 PRJ_PAR = {k: (float(v.falseeast), float(v.falsenorth), float(v.cmscale), float(v.zonewidth), float(v.initialcm))
            for k, v in PRJS.items()}
 # ISG zone definition (NSW Integrated Survey Grid): zone 'ZZ/s' -> central meridian
@@ -51,7 +61,7 @@ ISG_CM = {541: 139.0, 542: 141.0, 543: 143.0, 551: 145.0, 552: 147.0, 553: 149.0
 # (ellipsoid, projection) configurations for the TM properties
 TM_CONFIGS = ([(e, 'utm') for e in E9] + [('ans', 'isg'), ('grs80', 'isg')] +
               [('grs80', 'p0'), ('e64_400', 'p0'), ('grs80', 'p1'), ('e63_150', 'p1'), ('intl24', 'p2'), ('e635_275', 'p2'),
-               ('wgs84', 'p3'), ('ans', 'p4')])
+               ('wgs84', 'p3'), ('ans', 'p4'), ('grs80', 'p5'), ('intl24', 'p6')])
 
 
 def n_zones(prj):
@@ -70,7 +80,7 @@ def cm_of(prj, zone):
 # ---- angle input types ----------------------------------------------------------------------
 INTYPES = ['float', 'deca', 'hpa', 'gona', 'dms', 'ddm']
 # other legal forms of a float: numpy float64 scalars (a float subclass) as produced by array indexing / numpy arithmetic
-NUMFORMS = ['np64', 'np0d']
+NUMFORMS = ['np64', 'np0d', 'np32']
 
 
 def as_type(dec, kind):
@@ -89,6 +99,8 @@ def as_type(dec, kind):
         return ga.dec2ddm(dec)
     if kind == 'np64':
         return _NumObj(np.float64(dec))
+    if kind == 'np32':
+        return _NumObj(np.float32(dec))      # its value is float(np.float32(dec)); computations must stay in double precision
     if kind == 'np0d':
         # an element of a float array that went through arithmetic (0-d array scalar)
         return _NumObj(np.array([dec], dtype=float)[0] * np.float64(1.0))
